@@ -62,7 +62,7 @@ def generate(tape, tier="quick"):
         sc["perms"] = [[tape.shuffle(list(range(n))), tape.shuffle(list(range(m)))] for _ in range(5)]
         sc["listing"], sc["link_order"] = list(range(n)), list(range(m))
         return sc
-    sc = gen_e1(tape, tier, allow_delay_push=False, max_sim=4, pull_fanout=False, sorted_diamond=(2, 3))
+    sc = gen_e1(tape, tier, allow_delay_push=False, max_sim=4, pull_fanout=False, sorted_diamond=(2, 3), allow_adaptive=False)
     comps, links = sc["components"], sc["links"]
     if tape.chance(1, 4):
         # lockstep: every time-stepped component gets the same start and the same constant step (the smallest
